@@ -364,5 +364,15 @@ func TestC05(t *testing.T) {
 			}
 		}
 	}
+	// a dense window of moments asked again in scrambled order (same oracle, different predecessor)
+	{
+		start := ref.JDN(2019, 1, 1) + ev.Shard*230
+		for _, perm := range ev.Shuffled(460, ev.Pick(2, 8), 5) {
+			for _, k := range perm {
+				yy, mm, dd := ref.FromJDN(start + k)
+				pillars.Eval(momentCase{ref.DT{Y: yy, M: mm, D: dd, H: []int{22, 23, 0, 1}[k%4], Mi: 59, S: 59}})
+			}
+		}
+	}
 	pillars.Rapid(ev.Share(ev.Pick(24000, 600000)), func(t *rapid.T) momentCase { return momentCase{genMoment(t)} })
 }
